@@ -27,6 +27,8 @@ except Exception:  # pragma: no cover - native use without crosshair installed
     NoTracing = None
     is_tracing = lambda: False  # noqa: E731
 
+from engine import xh_patches  # noqa: F401,E402
+
 VERIF = os.path.dirname(os.path.dirname(os.path.abspath(__file__)))
 _SIDE_PATH = os.environ.get("XH_SIDE")
 _FD = None
@@ -38,6 +40,15 @@ PROPERTY = os.environ.get("XH_PROPERTY", "")
 
 _counts = {"path": 0, "samples": 0}
 _seen_known = set()
+
+
+def _detail(v):
+    """detail may be a callable so that building it (repr of symbolic values realises them) only
+    happens for the cases that are actually recorded"""
+    d = v.detail
+    if callable(d):
+        d = d()
+    return jsonable(realize(d))
 
 
 def _concrete(info, args):
@@ -180,7 +191,7 @@ def run(func_name, body, args, steps=None):
                             "f": func_name,
                             "args": _concrete(info, args),
                             "sig": v.signature,
-                            "detail": jsonable(realize(v.detail)),
+                            "detail": _detail(v),
                         }
                     )
                 else:
@@ -192,7 +203,7 @@ def run(func_name, body, args, steps=None):
                         "f": func_name,
                         "args": _concrete(info, args),
                         "sig": v.signature,
-                        "detail": jsonable(realize(v.detail)),
+                        "detail": _detail(v),
                     }
                 )
                 emit({"k": "tick", "f": func_name, "o": "fail", "n": info.get("steps", 0)})
